@@ -11,6 +11,7 @@ from .verus import run_verus, check_canaries, check_allowed, Undecided, BUILD
 
 ALLOWED = [
     r'^external_body pub const (REF_|AS_)',
+    r'^Partial(Eq|Ord)SpecImpl for impl vstd::std_specs::cmp::Partial(Eq|Ord)SpecImpl for (Rank|Suit|Card|MadeHand)$',
 ]
 
 ASSUMPTIONS = [
